@@ -53,6 +53,10 @@ def setup_scratch():
     shutil.copytree(os.path.join(VERIF, "miri-ids"), f"{SCRATCH}/verif/miri-ids", ignore=shutil.ignore_patterns("target"))
     t = open(f"{SCRATCH}/verif/miri-ids/Cargo.toml").read().replace('"/repo/', f'"{SCRATCH}/repo/')
     open(f"{SCRATCH}/verif/miri-ids/Cargo.toml", "w").write(t)
+    # the Miri-scheduled notified program (second half of the C20 check), against the scratch copy
+    shutil.copytree(os.path.join(VERIF, "miri-notified"), f"{SCRATCH}/verif/miri-notified", ignore=shutil.ignore_patterns("target"))
+    t = open(f"{SCRATCH}/verif/miri-notified/Cargo.toml").read().replace('"/repo/', f'"{SCRATCH}/repo/')
+    open(f"{SCRATCH}/verif/miri-notified/Cargo.toml", "w").write(t)
     # warm the build (unmutated) so that each mutant only rebuilds zlink crates + zsim
     r = sh("cargo build --release --offline", cwd=f"{SCRATCH}/sim")
     assert r.returncode == 0, r.stderr[-3000:]
@@ -70,6 +74,8 @@ def run_check(pid, tier, extra=()):
         assert b.returncode == 0, b.stderr[-2000:]
         r = sh([f"{SCRATCH}/sim/target/fast/zsim", pid, tier, "--no-evidence", "--twin", *extra], env=env)
         r.exe = f"{SCRATCH}/sim/target/fast/zsim"
+    if pid == "C20" and r.returncode == 0:
+        r = sh(["python3", os.path.join(VERIF, "tools", "notified_miri.py"), tier, "--no-evidence"], env=env)
     if pid == "C19" and r.returncode == 0:
         # same order as ./check C19: the simulator first, then the ids under Miri's schedules
         r = sh(["python3", os.path.join(VERIF, "tools", "ids_miri.py"), tier, "--no-evidence"], env=env)
@@ -115,7 +121,10 @@ def mutants(args):
                     c = run_check(pid, tier)
                     m = re.search(r"VIOLATION property=(\S+) replay=(\S+)", c.stdout)
                     if c.returncode == 1 and m:
-                        if "C19-ids-" in m.group(2):
+                        if "C20-threads-" in m.group(2):
+                            rp = sh(["python3", os.path.join(VERIF, "tools", "notified_miri.py"), "--replay", m.group(2)],
+                                    env=dict(ENV, VERIF_DIR=f"{SCRATCH}/verif"))
+                        elif "C19-ids-" in m.group(2):
                             rp = sh(["python3", os.path.join(VERIF, "tools", "ids_miri.py"), "--replay", m.group(2)],
                                     env=dict(ENV, VERIF_DIR=f"{SCRATCH}/verif"))
                         else:
